@@ -167,6 +167,41 @@ def _replay(task):
     return None
 
 
+MOL_CFG = """SPECIFICATION Spec
+CONSTANT N = 5
+INVARIANT Partition
+INVARIANT Closed
+ACTION_CONSTRAINT Emit
+CHECK_DEADLOCK FALSE
+"""
+
+
+def _molecules(rec):
+    """Topology.find_molecules on the bond graph: exactly the connected components (specs/Molecules.tla)"""
+    import mdtraj as md
+    n = 5
+    top = md.Topology(); ch = top.add_chain()
+    k = len(rec["bonds"])
+    res = [top.add_residue("X", ch) for _ in range(1 + k % 3)]
+    atoms = [top.add_atom("C%d" % i, md.element.carbon, res[(i * (k + 1)) % len(res)]) for i in range(n)]
+    for i, j in rec["bonds"]:
+        if (i + j + k) % 2:
+            i, j = j, i
+        top.add_bond(atoms[i], atoms[j])
+    try:
+        got = sorted(sorted(a.index for a in m) for m in top.find_molecules())
+    except ValueError:
+        if not rec["bonds"] and any(r.n_atoms > 1 for r in top.residues):
+            return None          # documented refusal: no bonds at all although some residue has several atoms
+        return "find_molecules raised ValueError"
+    except Exception as e:  # noqa
+        return "find_molecules raised %s" % type(e).__name__
+    want = sorted(sorted(c) for c in rec["comps"])
+    if got != want:
+        return "find_molecules returns %s, the connected components of the bond graph are %s" % (got, want)
+    return None
+
+
 def _history(tasks):
     """a history of systems re-imaged one after the other in one process, each Topology allocated where an earlier, freed one
     lived (same address, same atom and bond counts, different connectivity): the result must depend on the argument only"""
@@ -240,6 +275,15 @@ def run(ctx):
                                 dict(task=[h[k][0], h[k][1]], history=[x[0]["bonds"] for x in h[:k]], problem=p), cls="history: " + p.split("(bond")[0][:90])
         if hist and reused < len(hist):
             ctx.machinery_failure("history replay: topology addresses were reused only %d times in %d histories" % (reused, len(hist)))
+    n_mol = 0
+    if not ctx.replay:
+        mr = ctx.tlc("Molecules", "Molecules.cfg", workers=8, timeout=1200, cfg_text=MOL_CFG)
+        n_mol = len(mr.tr)
+        for rec, (st, val) in zip(mr.tr, pool.run_tasks(_molecules, mr.tr, workers=8, timeout=120, batch=64)):
+            if st == "ok" and val is None:
+                continue
+            nfail += 1
+            ctx.discrepancy(None, "bonds %s: %s" % (rec["bonds"], val if st == "ok" else "%s: %s" % (st, str(val)[:200])), dict(task=[cases[0], 0], graph=rec), cls="find_molecules")
     for tk, (st, val) in zip(tasks, res):
         if st == "ok" and val is None:
             continue
@@ -247,7 +291,7 @@ def run(ctx):
         msg = val if st == "ok" else "%s: %s" % (st, str(val)[:200])
         ctx.discrepancy(None, "cell=%s pos0=%s bonds(sorted)=%s: %s" % (tk[0]["cell"], tk[0]["pos0"], tk[0]["walk"], msg), dict(task=[tk[0], tk[1]], problem=msg),
                         cls=msg.split("(bond")[0][:100])
-    cov = dict(traces_validated_against_impl=len(tasks) + sum(len(h) for h in hist), histories=len(hist), topology_address_reuses=reused, replays_failing=nfail, cases_emitted=len(r.tr), samples=[t[0] for t in tasks[:2]],
+    cov = dict(traces_validated_against_impl=len(tasks) + sum(len(h) for h in hist) + n_mol, bond_graphs=n_mol, histories=len(hist), topology_address_reuses=reused, replays_failing=nfail, cases_emitted=len(r.tr), samples=[t[0] for t in tasks[:2]],
                explanation="TLC walks make_whole's bond loop step by step for every (cell, molecule template, atom labelling, bond orientation, per-atom lattice scramble): "
                            "LatticeMoves/BondsWhole/ObservablesKept hold for every placement order and fail for the sorted-by-first-atom order (guard); each case is replayed "
                            "through make_molecules_whole and image_molecules (inplace, make_whole, explicit/guessed anchors) with two scrambled waters added; "
